@@ -227,7 +227,9 @@ class DF:
         self.pop = pop if pop is not None else object()      # identity of the row population (for len() comparisons)
 
     def copy(self):
-        return DF({k: Vec(v.v) if isinstance(v, Vec) else v for k, v in self.cols.items()}, self.n, self.index, self.pop)
+        d = DF({k: Vec(v.v, aligned=True) if isinstance(v, Vec) else v for k, v in self.cols.items()}, self.n, self.index, self.pop)
+        d.exact = getattr(self, "exact", False)
+        return d
 
     def __repr__(self):
         return f"DF{list(self.cols)}"
